@@ -227,8 +227,40 @@ pub fn gen_channel(rng: &mut Rng, fam: &str, bps: usize, len: usize) -> Vec<i32>
 pub fn gen_audio(rng: &mut Rng, channels: usize, bps: usize, rate: usize, len: usize) -> Audio {
     let mut chans: Vec<Vec<i32>> = Vec::with_capacity(channels);
     let mut recipe = String::new();
-    let stereo_mode = if channels == 2 { rng.usize_below(9) } else { 0 };
+    let stereo_mode = if channels == 2 { rng.usize_below(11) } else { 0 };
     for ch in 0..channels {
+        if channels == 2 && ch == 1 && stereo_mode >= 9 {
+            // the relation between the channels CHANGES inside the signal (pieces of 16..4096
+            // samples): identical (dual mono), both loud independent noise, inverted, nearly
+            // identical. A decision taken from the head of a block does not hold for its tail.
+            let lo = smin(bps) as i64;
+            let hi = smax(bps) as i64;
+            let mut r = vec![0i32; len];
+            let mut t = 0;
+            let mut first = true;
+            while t < len {
+                let piece = *rng.pick(&[16usize, 64, 100, 256, 257, 300, 1000, 4096]);
+                let end = (t + piece).min(len);
+                let kind = if first && stereo_mode == 10 { 0 } else { rng.usize_below(4) };
+                first = false;
+                for i in t..end {
+                    let l = chans[0][i] as i64;
+                    r[i] = match kind {
+                        0 => l as i32,
+                        1 => {
+                            chans[0][i] = rng.range(lo, hi) as i32;
+                            rng.range(lo, hi) as i32
+                        }
+                        2 => (-l).clamp(lo, hi) as i32,
+                        _ => (l + rng.range(-2, 2)).clamp(lo, hi) as i32,
+                    };
+                }
+                t = end;
+            }
+            recipe.push_str("+stereo_piecewise");
+            chans.push(r);
+            continue;
+        }
         if channels == 2 && ch == 1 && stereo_mode == 8 {
             // the RIGHT channel is the clean one: left = right + small noise (right/side wins)
             let fam = *rng.pick(&FAMILIES);
@@ -529,6 +561,10 @@ pub struct TestSource {
     pub stall: Option<(usize, u64)>,
     /// which `SourceError` an injected read failure carries (see `source_error`)
     pub err_flavour: usize,
+    /// k > 0: every k-th read first offers more samples than the block holds (see `read_samples`)
+    pub overoffer_every: usize,
+    pub overoffers_refused: usize,
+    pub overoffers_accepted: usize,
 }
 
 pub const ERR_FLAVOURS: usize = 8;
@@ -570,6 +606,9 @@ impl TestSource {
             empty_fill_every: 0,
             stall: None,
             err_flavour: 0,
+            overoffer_every: 0,
+            overoffers_refused: 0,
+            overoffers_accepted: 0,
         }
     }
     pub fn with_faults(mut self, f: Vec<Fault>) -> Self {
@@ -659,6 +698,28 @@ impl Source for TestSource {
                 FillMode::Int | FillMode::IntShort | FillMode::IntChained => dest.fill_interleaved(&[])?,
                 FillMode::Bytes | FillMode::BytesShort | FillMode::BytesChained => dest.fill_le_bytes(&[], self.bytes_per_sample.unwrap_or((self.audio.bps + 7) / 8))?,
             }
+        }
+        // a packet-oriented source: every `overoffer_every`-th read it first offers the rest of its
+        // packet (more than the block holds), gets the documented refusal back, and then delivers
+        // a legal block. A refused offer must leave no trace (it is not part of the stream).
+        if self.overoffer_every > 0 && (k + 1) % self.overoffer_every == 0 && total - self.pos > block_size && block_size > 0 {
+            let m = (block_size + 1 + (k * 37) % (2 * block_size)).min(total - self.pos);
+            let offer = &self.audio.samples[self.pos * ch..(self.pos + m) * ch];
+            let r = if matches!(self.mode, FillMode::Bytes | FillMode::BytesShort | FillMode::BytesChained) {
+                let b = self.bytes_per_sample.unwrap_or((self.audio.bps + 7) / 8);
+                dest.fill_le_bytes(&to_le_bytes(offer, b), b)
+            } else {
+                dest.fill_interleaved(offer)
+            };
+            if r.is_ok() {
+                // the destination took it (it should not have): then that IS what was delivered
+                self.pos += m;
+                self.delivered += m;
+                self.log.push(m);
+                self.overoffers_accepted += 1;
+                return Ok(m);
+            }
+            self.overoffers_refused += 1;
         }
         let mode = if self.mode == FillMode::Mixed {
             if [true, true, false, true, false, false, true][k % 7] {
